@@ -151,15 +151,31 @@ class C19(Check):
                        'point_pairs': len(pl), 'far_image_shift': list(FAR), 'shift_range': [-3, 3],
                        'shifts': 343, 'kind_combinations': ['-'.join(k) for k in kinds],
                        'call_forms': ['box', 'inverse box, inv=True'], 'directions': 2}
-        return [{'box': b, 'pair': p} for b in bx for p in pl]
+        u = [{'box': b, 'pair': p} for b in bx for p in pl]
+        # two mutually reciprocal boxes used one after the other by the same process (the inverse of the first
+        # box is itself passed as a box): the numbers of one are the inverse-box numbers of the other
+        recip = [{'kind': 'ortho', 'm': np.diag(e).tolist()} for e in ([2.0, 1.25, 0.5], [0.5, 0.5, 4.0])] + \
+            [{'kind': 'tric', 'm': TRICLINIC[0]}]
+        self.bounds['reciprocal_box_pairs'] = len(recip)
+        u += [{'box': b, 'pair': p, 'recip': 1} for b in recip for p in pl[:6]]
+        return u
 
     def cases(self, unit, tier, seed):
         kinds = KINDS_ALL if tier == 'thorough' else KINDS_QUICK
         for ka, kb in kinds:
-            yield {'box': unit['box'], 'pair': unit['pair'], 'ka': ka, 'kb': kb}
+            c = {'box': unit['box'], 'pair': unit['pair'], 'ka': ka, 'kb': kb}
+            if unit.get('recip'):
+                c['recip'] = 1
+            yield c
 
     # ------------------------------------------------------------------
     def check_case(self, case, R, seed):
+        if case.get('recip') == 1:
+            first = dict(case, recip=2)
+            self.check_case(first, R, seed)
+            inv = np.linalg.inv(np.array(case['box']['m'], float))
+            self.check_case(dict(case, recip=3, box={'kind': case['box']['kind'], 'm': inv.tolist()}), R, seed)
+            return
         box = np.array(case['box']['m'], float)
         ortho = case['box']['kind'] == 'ortho'
         inv_box = np.linalg.inv(box)
